@@ -32,6 +32,7 @@ import Pandora.Proofs.C02Width
 import Pandora.Bridge.C02Leaf
 import Pandora.Proofs.C02Big
 import Pandora.Bridge.C02Const
+import Pandora.Proofs.C02R6Compose
 
 set_option linter.unusedVariables false
 
@@ -970,4 +971,78 @@ example : ((Pandora.Model.C02.CbW.wrun Pandora.Proofs.C02Cb.absInner
     [.got (.tok 5 true), .ret (.tok 5 true), .got (.tok 5 false), .cbBegin, .got (.tok 5 false), .blocked, .blocked,
      .cbEnd, .ret (.tok 5 false), .ret (.tok 5 false)] := by decide
 
+/-! ## G. Composition with C01: accepted configurations → leaves → composites → concurrent callers (round 6) -/
+
+section compose
+open Pandora.Gen.Schedule Pandora.Bridge.C02IStep Pandora.Proofs.C02R6
+
+/-- **Every schedule built from ACCEPTED configurations is a tree of well-formed parts.**  `Accepted`: once / const /
+line / step with the `validate` tags C01's area regenerates from the config structs, and composites of such, any
+nesting; `toTree` reads what the regenerated constructors build as a C02 tree.  Discharges the hypothesis `Part.wf`
+of `C02_chain_wf` / `C02_times_monotone` from C01's theorems (`C01_const`, `C01_line`, `C01_step`) instead of assuming it. -/
+theorem C02_accepted_parts_wf (s : Sched) (h : Accepted s) : ∀ p ∈ flat (toTree s), p.wf = true :=
+  accepted_wf s h
+
+/-- **Times never decrease, for every accepted schedule**: all times returned by `Next`, in return order over all
+callers (hence per caller), in every concurrent run with a clock that does not go back — no hypothesis on the parts. -/
+theorem C02_accepted_times_monotone (s : Sched) (h : Accepted s) (t0 : Int) (log : Log) (A : Abs) (hi : Int)
+    (hr : Reach (.running (inst (flat (toTree s)) t0)) log A) (hm : LogMono hi log) :
+    (times log).Pairwise (· ≤ ·) ∧ ∀ i : Nat, (times (log.filter (fun e => e.1 == i))).Pairwise (· ≤ ·) := by
+  have hp := accepted_times_mono s h t0 log A hi hr hm
+  refine ⟨hp, fun i => hp.sublist ?_⟩
+  unfold times
+  exact (List.filter_sublist.reverse).filterMap _
+
+/-- **End to end: rate profile → leaf → concurrent callers.**  For every accepted const configuration and every
+accepted line configuration, the started schedule hands out — to however many callers, in whatever interleaving — as
+its k-th ok result in return order exactly `start + ⌊x_k · 10⁹⌋`, where `x_k` is the earliest instant at which the
+integral of the configured rate reaches k (C01's `EarliestAt`); no more ok results than ⌊∫ rate⌋; each inside
+[start, start + duration]. -/
+theorem C02_profile_tokens :
+    (∀ (ops : ℝ) (D : ℤ), ConstConfig_valid ops D → ∀ (t0 : Int) (log : Log) (A : Abs),
+      Reach (.running (inst (flat (toTree (NewConstConf ops D))) t0)) log A →
+      ((okToks log).length : ℤ) ≤ max ⌊Props.C01.constCum ops (Bridge.Schedule.secs D)⌋ 0 ∧
+      ∀ (k : ℕ) (hk : k < (okToks log).length), ∃ x : ℝ, Props.C01.EarliestAt (Props.C01.constCum ops) D (k : ℝ) x ∧
+        (okToks log)[k] = t0 + ⌊x * 1000000000⌋ ∧ t0 ≤ (okToks log)[k] ∧ (okToks log)[k] ≤ t0 + D) ∧
+    (∀ (f t : ℝ) (D : ℤ), LineConfig_valid f t D → ∀ (t0 : Int) (log : Log) (A : Abs),
+      Reach (.running (inst (flat (toTree (NewLineConf f t D))) t0)) log A →
+      ((okToks log).length : ℤ) ≤ max ⌊Props.C01.lineCum f t D (Bridge.Schedule.secs D)⌋ 0 ∧
+      ∀ (k : ℕ) (hk : k < (okToks log).length), ∃ x : ℝ, Props.C01.EarliestAt (Props.C01.lineCum f t D) D (k : ℝ) x ∧
+        (okToks log)[k] = t0 + ⌊x * 1000000000⌋ ∧ t0 ≤ (okToks log)[k] ∧ (okToks log)[k] ≤ t0 + D) :=
+  ⟨fun ops D h t0 log A hr => profile_tokens _ _ D (Props.C01.C01_const ops D h) t0 log A hr,
+   fun f t D h t0 log A hr => profile_tokens _ _ D (Props.C01.C01_line f t D h).1 t0 log A hr⟩
+
+-- non-vacuity: a nested accepted schedule …
+example : Accepted (Sched.composite [NewOnceConf 3, NewConstConf 7.5 1000000,
+    Sched.composite [NewLineConf 0 10 1500000000, NewStepConf 1 10 3 1500000000]]) := by
+  refine .comp _ ?_
+  intro s hs
+  simp only [List.mem_cons, List.mem_nil_iff, or_false] at hs
+  rcases hs with rfl | rfl | rfl
+  · exact .once 3 (by unfold OnceConfig_valid; norm_num)
+  · exact .const _ _ (by unfold ConstConfig_valid; schedule_timeval_unfold; norm_num)
+  · refine .comp _ ?_
+    intro s hs
+    simp only [List.mem_cons, List.mem_nil_iff, or_false] at hs
+    rcases hs with rfl | rfl
+    · exact .line _ _ _ (by unfold LineConfig_valid; schedule_timeval_unfold; norm_num)
+    · exact .step _ _ _ _ (by unfold StepConfig_valid; schedule_timeval_unfold; norm_num)
+
+-- … and a run of an accepted schedule with results of two callers: once(3) started at 7, callers 0 and 1 draw
+-- a token each, then caller 1 asks Left
+example : Accepted (NewOnceConf 3) ∧ ∃ A, Reach (.running (inst (flat (toTree (NewOnceConf 3))) 7))
+    [(1, 9, .ret (.cnt 1)), (1, 8, .ret (.tok 7 true)), (0, 8, .ret (.tok 7 true))] A ∧
+    LogMono 9 [(1, 9, .ret (.cnt 1)), (1, 8, .ret (.tok 7 true)), (0, 8, .ret (.tok 7 true))] := by
+  refine ⟨.once 3 (by unfold OnceConfig_valid; norm_num), ?_⟩
+  have ht : toTree (NewOnceConf 3) = Tree.fin [0, 0, 0] 0 := by
+    have := once_tree 3
+    simpa [NewOnceConf, List.replicate] using this
+  rw [ht]
+  refine ⟨.running [.fin [7] 7], ⟨.running [.fin [7] 7], ⟨.running [.fin [7, 7] 7], ⟨_, rfl, ?_⟩, ?_⟩, ?_⟩, ?_⟩
+  · show absNext _ 8 = _; decide
+  · show absNext _ 8 = _; decide
+  · exact ⟨by decide, rfl⟩
+  · simp [LogMono]
+
+end compose
 end Pandora.Props.C02
